@@ -28,7 +28,10 @@ type FieldOp struct {
 
 // Step is one abstract operation. Indices are taken modulo what exists.
 type Step struct {
-	Kind string    `json:"k"` // create update delete deliver ttread
+	// Kind: create update delete deliver ttread; mirror (repeat the field writes of the latest update
+	// another node made to the document); deliverfrom (deliver the latest document-level notification
+	// produced by node Msg)
+	Kind string    `json:"k"`
 	Node int       `json:"n"`
 	Tpl  int       `json:"tpl,omitempty"`
 	Doc  int       `json:"doc,omitempty"`
@@ -137,6 +140,72 @@ func jsonToGQL(js string) string {
 	return renderGQL(v)
 }
 
+// drawUpdateOps draws the field writes of one update.
+func drawUpdateOps(t *rapid.T, bias string) []FieldOp {
+	var ops []FieldOp
+	nf := rapid.IntRange(1, 3).Draw(t, "nf")
+	used := map[string]bool{}
+	for k := 0; k < nf; k++ {
+		var f string
+		if bias == "counters" && rapid.IntRange(0, 2).Draw(t, "cbias") > 0 {
+			f = rapid.SampledFrom(counterFields).Draw(t, "cf")
+		} else {
+			f = rapid.SampledFrom(allFields).Draw(t, "f")
+		}
+		if used[f] {
+			continue
+		}
+		used[f] = true
+		if isCounter(f) {
+			ops = append(ops, FieldOp{Field: f, Inc: rapid.SampledFrom(incPool[f]).Draw(t, "inc")})
+		} else {
+			ops = append(ops, FieldOp{Field: f, Set: rapid.SampledFrom(valuePool[f]).Draw(t, "val")})
+		}
+	}
+	sort.Slice(ops, func(a, b int) bool { return ops[a].Field < ops[b].Field })
+	return ops
+}
+
+// drawDiamondSteps draws a structured history: one document created on node 0 and handed to node 1;
+// then 1-2 rounds of {a branch phase in which nodes 0 and 1 write concurrently (updates, "mirror"
+// updates that repeat the other node's latest field writes so that both produce the same field-level
+// commit under different document commits, rarely a delete), a merge phase in which one of them
+// receives the other's latest commit and writes on top}; then the late joiner (node 2, which has
+// seen nothing, or only the genesis) receives the merger's latest commit, i.e. the whole two-branch
+// DAG in ONE merge; then a few free steps. The free generator reaches such shapes only rarely.
+func drawDiamondSteps(t *rapid.T, cfg Config, bias string) []Step {
+	steps := []Step{{Kind: "create", Node: 0, Tpl: 0}, {Kind: "deliverfrom", Node: 1, Msg: 0}}
+	if rapid.IntRange(0, 3).Draw(t, "joinerHasGenesis") == 0 {
+		steps = append(steps, Step{Kind: "deliverfrom", Node: 2, Msg: 0})
+	}
+	rounds := rapid.IntRange(1, 2).Draw(t, "rounds")
+	merger := 0
+	for r := 0; r < rounds; r++ {
+		m := rapid.IntRange(2, 8).Draw(t, "branchOps")
+		for i := 0; i < m; i++ {
+			node := rapid.IntRange(0, 1).Draw(t, "bnode")
+			switch w := rapid.IntRange(0, 99).Draw(t, "bkind"); {
+			case w < 30:
+				steps = append(steps, Step{Kind: "mirror", Node: node, Doc: 0})
+			case w < 33:
+				steps = append(steps, Step{Kind: "delete", Node: node, Doc: 0})
+			case w < 38:
+				// redelivery of something old to one of the writers
+				steps = append(steps, Step{Kind: "deliver", Node: node, Msg: rapid.IntRange(0, 1<<16).Draw(t, "msg")})
+			default:
+				steps = append(steps, Step{Kind: "update", Node: node, Doc: 0, Ops: drawUpdateOps(t, bias)})
+			}
+		}
+		merger = rapid.IntRange(0, 1).Draw(t, "merger")
+		steps = append(steps, Step{Kind: "deliverfrom", Node: merger, Msg: 1 - merger})
+		if rapid.IntRange(0, 4).Draw(t, "writeOnTop") > 0 {
+			steps = append(steps, Step{Kind: "update", Node: merger, Doc: 0, Ops: drawUpdateOps(t, bias)})
+		}
+	}
+	steps = append(steps, Step{Kind: "deliverfrom", Node: 2, Msg: merger})
+	return steps
+}
+
 func drawCase(t *rapid.T, bias string) Case {
 	cfg := Config{Nodes: rapid.IntRange(2, 4).Draw(t, "nodes")}
 	cfg.Branchable = rapid.IntRange(0, 3).Draw(t, "branchable") == 0
@@ -155,6 +224,11 @@ func drawCase(t *rapid.T, bias string) Case {
 	ntpl := rapid.IntRange(1, 3).Draw(t, "ntpl")
 	// the first steps create documents so that later steps have something to work on
 	created := 0
+	if cfg.Nodes >= 3 && rapid.IntRange(0, 9).Draw(t, "shape") < 4 {
+		c.Steps = drawDiamondSteps(t, cfg, bias)
+		created = 1
+		n = rapid.IntRange(0, 8).Draw(t, "freeSteps")
+	}
 	for i := 0; i < n; i++ {
 		var s Step
 		s.Node = rapid.IntRange(0, cfg.Nodes-1).Draw(t, "node")
@@ -164,29 +238,13 @@ func drawCase(t *rapid.T, bias string) Case {
 			s.Kind = "create"
 			s.Tpl = rapid.IntRange(0, ntpl-1).Draw(t, "tpl")
 			created++
-		case w < 50:
+		case w < 46:
 			s.Kind = "update"
 			s.Doc = rapid.IntRange(0, 3).Draw(t, "doc")
-			nf := rapid.IntRange(1, 3).Draw(t, "nf")
-			used := map[string]bool{}
-			for k := 0; k < nf; k++ {
-				var f string
-				if bias == "counters" && rapid.IntRange(0, 2).Draw(t, "cbias") > 0 {
-					f = rapid.SampledFrom(counterFields).Draw(t, "cf")
-				} else {
-					f = rapid.SampledFrom(allFields).Draw(t, "f")
-				}
-				if used[f] {
-					continue
-				}
-				used[f] = true
-				if isCounter(f) {
-					s.Ops = append(s.Ops, FieldOp{Field: f, Inc: rapid.SampledFrom(incPool[f]).Draw(t, "inc")})
-				} else {
-					s.Ops = append(s.Ops, FieldOp{Field: f, Set: rapid.SampledFrom(valuePool[f]).Draw(t, "val")})
-				}
-			}
-			sort.Slice(s.Ops, func(a, b int) bool { return s.Ops[a].Field < s.Ops[b].Field })
+			s.Ops = drawUpdateOps(t, bias)
+		case w < 50:
+			s.Kind = "mirror"
+			s.Doc = rapid.IntRange(0, 3).Draw(t, "doc")
 		case w < 56:
 			s.Kind = "delete"
 			s.Doc = rapid.IntRange(0, 3).Draw(t, "doc")
